@@ -2,5 +2,26 @@ package props
 
 import "verifharness/internal/vf"
 
-// runC20e2e is filled in once the program generator exists.
-func runC20e2e(r *vf.Runner) {}
+// runC20e2e: for failure-free runs on both executors, Counter.Value(result.Scope()) must equal
+// the increments the user functions performed (counted independently by the recorder). The
+// comparison itself is shared with C04 (runC04case: "counters-differ-from-increments").
+func runC20e2e(r *vf.Runner) {
+	pool := &sessionPool{}
+	defer pool.closeAll()
+	rnd := r.Rand("e2e")
+	n := 30
+	if !r.Quick() {
+		n = 600
+	}
+	// no early-terminating consumers: how far a Head pulls its upstream depends on the vector size
+	ops := []string{"map", "map", "filter", "flatmap", "fold", "reduce", "cogroup", "reshuffle", "repartition", "reshard", "prefixed", "writerfunc", "mapkv"}
+	opts := genOpts{MaxOps: 6, Sources: []string{"const", "readerfunc"}, Ops: ops, NoWeakHead: true, NoScan: true, Ctx: true}
+	for i := 0; i < n; i++ {
+		c := c04case{Spec: genSpec(rnd.Fork(), opts)}
+		c.Confs = []execConf{defaultExec(localP4), defaultExec(bm2)}
+		if i%3 == 0 {
+			c.Confs = append(c.Confs, defaultExec(sessConf{Kind: "bigmachine", P: 2, MachProcs: 1, MaxLoad: 0.95}))
+		}
+		r.Case(c, func(t *vf.T) { runC04case(t, pool, c) })
+	}
+}
